@@ -279,10 +279,12 @@ SELFTEST_FLIP = {
     "AtomicCreateTrace": ("After", lambda e: e.update(classes=["other"] + e["classes"][1:])),
     "DecoderTrace": ("Publish", lambda e: e.update(a=e["a"] + 1000000)),
     "Layout": ("Ptr", lambda e: e.update(offset=e["offset"] + 1)),
+    "PipelineHooksTrace": ("Hook", lambda e: e.update(b=e["b"] + 1) if e["name"] == "PWrite" else None),
 }
 SELFTEST_DROP = {"ContentPackTrace": "Add", "EntryStoreTrace": "Entry", "EntryOrderTrace": "Entry", "ClusterPipelineTrace": "NewCluster",
                  "PackagingTrace": ("Loc", lambda e: e["pack"] != "d"), "ViewsTrace": ("Step", lambda e: e["op"] in ("cut", "stream", "into_stream", "to_region", "as_slice")),
-                 "IntegrityTrace": None, "AtomicCreateTrace": "Rename", "DecoderTrace": "Buf", "Layout": "Block"}
+                 "IntegrityTrace": None, "AtomicCreateTrace": "Rename", "DecoderTrace": "Buf", "Layout": "Block",
+                 "PipelineHooksTrace": ("Hook", lambda e: e["name"] == "PDec")}
 
 
 def selftest_corrupt(module, events):
